@@ -810,6 +810,9 @@ class PayloadDELETE(Payload):
             protocol_id, spi_size, num_spis = unpack_from('>BBH', data)
         except struct_error:
             raise InvalidSyntax('Error parsing Payload DELETE.')
+        # the number of SPIs is a 16-bit count the sender is free to choose: read no more SPIs than the payload holds, so that
+        # the work is covered by data actually received (and none when their size is zero)
+        num_spis = min(num_spis, (len(data) - 4) // spi_size) if spi_size else 0
         spis = []
         offset = 4
         for i in range(0, num_spis):
